@@ -98,7 +98,7 @@ fn main() {
         std::process::exit(rc);
     }
     let mut c = Check::new("C05", args.tier, "model_checking");
-    c.rule = "(a) exhaustive sweep of should_notify() against the specification's vring_need_event over (avail_idx, avail_event) pairs and all batch sizes up to N; (b) BFS histories including set_dev_notify with the device-visible suppression state checked after every step; (c) deviation-free DFS over device servicing policies for the blocking helper with the device co-simulated inside notify and inside the busy-wait hook; (e) for every driver, every subset of its queues with notifications suppressed (flag form, or a far-away event index) and polled by the device while the others are served on notification only, a script touching every queue with a per-queue check after every operation (available buffers on an unsuppressed queue must have been announced; a queue with the suppression flag set must not be notified). Distinct = must-notify input pairs / distinct states / distinct observation signatures".into();
+    c.rule = "(a) exhaustive sweep of should_notify() against the specification's vring_need_event over (avail_idx, avail_event) pairs and all batch sizes up to N, with used.flags (to be ignored under event index) set to NO_NOTIFY for every other input; (b) BFS histories including set_dev_notify with the device-visible suppression state checked after every step; (c) deviation-free DFS over device servicing policies for the blocking helper with the device co-simulated inside notify and inside the busy-wait hook; (e) for every driver, every subset of its queues with notifications suppressed (flag form, or a far-away event index) and polled by the device while the others are served on notification only, a script touching every queue with a per-queue check after every operation (available buffers on an unsuppressed queue must have been announced; a queue with the suppression flag set must not be notified). Distinct = must-notify input pairs / distinct states / distinct observation signatures".into();
     c.assumptions = qcheck::standard_assumptions();
     c.assumptions.push("the missing store->load barrier between publishing avail.idx and reading the suppression word is a hardware-ordering matter invisible to a sequentially consistent explorer; not claimed".into());
     let full = args.tier == Tier::Thorough;
